@@ -28,3 +28,138 @@ func init() {
 		Outside: []string{"registries larger than the bound", "payloads above MaxPayloadLength"},
 	})
 }
+
+// ---------------------------------------------------------------------------
+// the gateway "world" harness: event catalogue
+
+type gwEv struct{ kind, arg int64 }
+
+const evMQ = 0x100
+const evTIMER = 0x200
+
+func gwSNEvents(full bool) []gwEv {
+	tab := []struct {
+		typ  int64
+		lens []int64
+	}{
+		{0x00, []int64{3}}, {0x01, []int64{1}}, {0x02, []int64{1, 2}},
+		{0x03, []int64{2, 3, 7, 9, 10, 11}}, {0x04, []int64{5, 6}}, {0x05, []int64{1}}, {0x06, []int64{0}},
+		{0x07, []int64{0, 2, 3}}, {0x08, []int64{0}}, {0x09, []int64{0, 1, 2}}, {0x0A, []int64{5, 6, 7}}, {0x0B, []int64{5}},
+		{0x0C, []int64{5, 6, 7}}, {0x0D, []int64{5}}, {0x0E, []int64{2}}, {0x0F, []int64{2}}, {0x10, []int64{2}},
+		{0x12, []int64{4, 5, 6}}, {0x13, []int64{6}}, {0x14, []int64{4, 5, 6}}, {0x15, []int64{2}}, {0x16, []int64{0, 1}},
+		{0x17, []int64{0}}, {0x18, []int64{0, 2}}, {0x1A, []int64{0, 2}}, {0x1B, []int64{1}}, {0x1C, []int64{0, 1}}, {0x1D, []int64{1}},
+	}
+	var out []gwEv
+	for _, t := range tab {
+		lens := t.lens
+		if !full && len(lens) > 2 {
+			lens = []int64{lens[0], lens[len(lens)-1]}
+		}
+		for _, n := range lens {
+			out = append(out, gwEv{t.typ, n})
+		}
+	}
+	return out
+}
+
+func gwMQEvents(all bool) []gwEv {
+	out := []gwEv{{evMQ + 2, 0}, {evMQ + 3, 1}, {evMQ + 3, 2}, {evMQ + 3, 3}, {evMQ + 4, 0}, {evMQ + 5, 0}, {evMQ + 6, 0}, {evMQ + 7, 0},
+		{evMQ + 9, 0}, {evMQ + 9, 1}, {evMQ + 9, 2}, {evMQ + 11, 0}, {evMQ + 13, 0}}
+	if all {
+		out = append(out, gwEv{evMQ + 1, 0}, gwEv{evMQ + 8, 0}, gwEv{evMQ + 10, 0}, gwEv{evMQ + 12, 0}, gwEv{evMQ + 14, 0})
+	}
+	return out
+}
+
+func gwAllEvents(full bool) []gwEv {
+	return append(append(gwSNEvents(full), gwMQEvents(true)...), gwEv{evTIMER, 0})
+}
+
+// setup events: the ones that create transactions / change state
+func gwSetupEvents() []gwEv {
+	return []gwEv{{0x04, 5}, {0x03, 10}, {0x07, 2}, {0x09, 1}, {0x0A, 5}, {0x0C, 6}, {0x12, 4}, {0x12, 5}, {0x18, 2}, {0x18, 0}, {0x16, 0},
+		{evMQ + 3, 1}, {evMQ + 3, 2}, {evMQ + 3, 3}, {evMQ + 2, 0}, {evTIMER, 0}}
+}
+
+// gwOnePerKind keeps, unless all is set, only the largest variant of each event kind.
+func gwOnePerKind(evs []gwEv, all bool) []gwEv {
+	if all {
+		return evs
+	}
+	last := map[int64]gwEv{}
+	var order []int64
+	for _, e := range evs {
+		if _, ok := last[e.kind]; !ok {
+			order = append(order, e.kind)
+		}
+		last[e.kind] = e
+	}
+	var out []gwEv
+	for _, k := range order {
+		out = append(out, last[k])
+	}
+	return out
+}
+
+func gwInsts(tier string) []Inst {
+	full := tier == "thorough"
+	var out []Inst
+	out = append(out, inst("gateway", "VH_GW_init"))
+	for _, e := range gwAllEvents(full) {
+		out = append(out, inst("gateway", "VH_GW_step", e.kind, e.arg, 1))
+		if full {
+			out = append(out, inst("gateway", "VH_GW_step", e.kind, e.arg, 2))
+		}
+	}
+	// a set-up (transaction in progress, sleeping client, ...) followed by every event
+	for su := int64(1); su <= 17; su++ {
+		for _, b := range gwOnePerKind(gwAllEvents(full), full) {
+			out = append(out, inst("gateway", "VH_GW_setup2", su, b.kind, b.arg))
+		}
+	}
+	if full {
+		// set-up, then a timer expiry or a set-up event, then every event
+		for su := int64(1); su <= 17; su++ {
+			for _, b := range gwAllEvents(false) {
+				out = append(out, inst("gateway", "VH_GW_setup3", su, evTIMER, 0, b.kind, b.arg))
+			}
+		}
+	}
+	return out
+}
+
+var gwBounds = map[string]string{
+	"events":        "client datagrams of all 28 MQTT-SN types (body lengths from the type's minimum up to minimum+3, AUTH up to PLAIN + 4 data bytes) decoded by the real decoder from symbolic bytes; broker packets CONNACK, PUBLISH (topic 1..3 bytes, QoS 0..3), PUBACK, PUBREC, PUBREL, PUBCOMP, SUBACK (0..2 return codes), UNSUBACK, PINGRESP and the five client-only types, all fields symbolic; expiry of the earliest pending timer",
+	"configuration": "auth on/off, gateway broker credentials absent/present (1-byte user and password), predefined topics: 1 entry for one client + 1 '*' entry, IDs symbolic, names 2 symbolic bytes (valid topic names)",
+	"one step":      "every event from an arbitrary pre-state: client state in {disconnected, active, asleep, awake}, keep-alive symbolic, registry of 1 (thorough: 1 and 2) entries with symbolic IDs/names, client ID equal to or different from the configured one",
+	"histories":     "17 set-ups (real handler steps: connect exchange in each phase with/without will/auth, client PUBLISH QoS 1 pending, SUBSCRIBE pending, broker PUBLISH awaiting REGACK / PUBACK / PUBREC / PUBREL / PUBCOMP, asleep, asleep with buffered traffic, awake, connected through a real exchange, fresh session) x every event; thorough: set-up, timer expiry, every event",
+	"broker model":  "conforming: CONNACK only as the answer to a CONNECT, nothing else before it accepted",
+}
+
+var gwOutside = []string{"histories longer than the bound that are not covered by the arbitrary pre-state (transactions older than one event)", "paho's decoding of broker bytes (broker input is taken at ControlPacket level)", "String()/logging"}
+
+func init() {
+	reg(&Spec{
+		ID: "C14", Pkgs: []string{"gateway"},
+		Quick: func() []Inst { return gwInsts("quick") }, Thor: func() []Inst { return gwInsts("thorough") },
+		Asserts:      []string{"C14.only_plain_disconnect"},
+		Reach:        []string{"C14.disconnect_sent"},
+		Bounds:       gwBounds, Outside: gwOutside,
+		FrameCallees: []string{"(*github.com/energomonitor/bisquitt/gateway.handler1).mqttSend"},
+	})
+	reg(&Spec{
+		ID: "C24", Pkgs: []string{"gateway"},
+		Quick: func() []Inst { return gwInsts("quick") }, Thor: func() []Inst { return gwInsts("thorough") },
+		Asserts:      []string{"C24.valid_packet", "C24.connect_protocol", "C24.will_flag_iff_topic", "C24.publish_topic_nonempty", "C24.publish_topic_no_wildcard", "C24.filter_nonempty", "C24.subscribe_qos", "C24.registry_names_valid"},
+		Bounds:       gwBounds, Outside: gwOutside,
+		FrameCallees: []string{"(*github.com/energomonitor/bisquitt/gateway.handler1).mqttSend"},
+	})
+	reg(&Spec{
+		ID: "C07", Pkgs: []string{"gateway"},
+		Quick: func() []Inst { return gwInsts("quick") }, Thor: func() []Inst { return gwInsts("thorough") },
+		Asserts:      []string{"C07.init", "C07.inv", "C07.connack_only_after_accept", "C07.nothing_relayed_before_accept", "C07.illegal_closes_session"},
+		Reach:        []string{"C07.connected_state", "C07.connack_accepted", "C07.illegal_before_connect"},
+		Bounds:       gwBounds, Outside: gwOutside,
+		FrameCallees: []string{"(*github.com/energomonitor/bisquitt/gateway.handler1).setState", "(*github.com/energomonitor/bisquitt/util.ClientState).Set"},
+	})
+}
